@@ -55,6 +55,7 @@ structure Obj where
   runB   : RunB
   isOpen : Bool      -- instrument `_is_open`
   ts     : TaskSt
+  started : Bool     -- `start()` was called (so `run()` ran, and raised if `runB = raise`)
   deriving DecidableEq, Repr
 
 /-- a stop handler: returns, raises an `Exception`, raises a non-`Exception` `BaseException` -/
@@ -94,7 +95,7 @@ structure Ctx where
   log      : List Ev
   deriving DecidableEq, Repr
 
-def ctxObj : Obj := { id := 0, name := 0, kind := .rpc, relF := false, runB := .loop, isOpen := false, ts := .ready }
+def ctxObj : Obj := { id := 0, name := 0, kind := .rpc, relF := false, runB := .loop, isOpen := false, ts := .ready, started := false }
 
 /-- `QMI_Context.__init__`: the `$context` object exists (thread, handler, map entry) before `start()` -/
 def Ctx.init (cfgTcp : Bool) : Ctx :=
@@ -159,7 +160,7 @@ def mkConstruct (c : Ctx) (k : Kind) (n : Name) (ctorF relF : Bool) (runB : RunB
   let c := { c with nextId := id + 1 }
   if ctorF then (c, none)
   else
-    let o : Obj := { id, name := n, kind := k, relF, runB, isOpen := false, ts := .ready }
+    let o : Obj := { id, name := n, kind := k, relF, runB, isOpen := false, ts := .ready, started := false }
     ({ c with mgrs := c.mgrs ++ [o] }, some o)
 
 /-- second `with self._rpc_object_map_lock` block: re-check `_active`, publish the manager -/
@@ -271,7 +272,7 @@ def tstart (c : Ctx) (n : Name) : Ctx × Out :=
   | .ok o =>
     if o.kind != .task then (c, .exc .unknownRpc)
     else if o.ts != .ready then (c, .exc .usage)
-    else (updMgr c o.id (fun x => { x with ts := if x.runB == .loop then .running else .ended }), .ok)
+    else (updMgr c o.id (fun x => { x with ts := if x.runB == .loop then .running else .ended, started := true }), .ok)
 
 /-- `proxy.stop(); proxy.join()` of a task -/
 def tjoin (c : Ctx) (n : Name) : Ctx × Out :=
@@ -280,7 +281,7 @@ def tjoin (c : Ctx) (n : Name) : Ctx × Out :=
   | .ok o =>
     if o.kind != .task then (c, .exc .unknownRpc)
     else
-      let failed := o.runB == .raise && o.ts != .ready
+      let failed := o.runB == .raise && o.started
       (updMgr c o.id (fun x => { x with ts := .joined }), if failed then .exc .taskRun else .ok)
 
 def addH (c : Ctx) (f : HF) : Ctx × Out :=
